@@ -116,7 +116,7 @@ def run(tier, seed, proof):
     fired = collections.Counter()
     viol, div = [], []
     with concurrent.futures.ThreadPoolExecutor(max_workers=common.NCPU) as ex:
-        for r in ex.map(lambda c: l1.run_case(*c), cases):
+        for r in common.bounded_map(ex, lambda c: l1.run_case(*c), cases):
             res.evaluations += 1
             for tag in ("WRET EINTR", "WRET ENOSYS"):
                 fired[tag] += r.log.count(tag)
